@@ -21,8 +21,8 @@ func TestC03(t *testing.T) {
 			"non-trivial = at least one Destroy committed and one blocking helper (TeardownAndDestroy/WatchFor) involved")
 		c.Assume("interleavings are explored at the granularity of store operations and watch deliveries (the property's quantifier); the proxy serialises writes, which the store does per kind anyway")
 		c.Assume("liveness is judged as bounded progress: 30 virtual minutes after the last actor step with nothing runnable")
-		c.Require("destroys", "teardown_ready", "tad_ok", "watchfor_ok", "ctx_cancelled", "ctx_live",
-			"window_fin_removed_between_mark_and_watch", "window_third_party_destroy", "window_pending_finalizer_at_destroy")
+		c.Require("destroys", "teardown_ready", "tad_ok", "watchfor_ok", "ctx_cancelled", "ctx_live")
+		c.Want("window_fin_removed_between_mark_and_watch", "window_third_party_destroy", "window_pending_finalizer_at_destroy")
 
 		n := c.N(8000, 300000)
 
